@@ -329,6 +329,17 @@ From(st, s, dbs, schema) ==
       !.inputs = << src >>,
       !.status = "ok" ]
 
+\* from [{a = 1, b = null}, ...]: a relation literal; the same rows on every database instance
+FromLit(st, s, dbs) ==
+  LET src == IF s.alias # "" THEN s.alias ELSE "_literal" IN
+  IF s.rows = <<>> \/ \E i \in Idx(s.rows) : Len(s.rows[i]) # Len(s.cols) THEN Unsup(st)
+  ELSE [ st EXCEPT
+      !.frame  = [i \in Idx(s.cols) |-> Col(s.cols[i], src)],
+      !.W      = [d \in Idx(dbs) |-> { [ns |-> "any", rows |-> [i \in Idx(s.rows) |-> [v |-> s.rows[i], key |-> <<>>]]] }],
+      !.dirs   = <<>>,
+      !.inputs = << src >>,
+      !.status = "ok" ]
+
 \* select / derive: one new value per item and row
 ItemVals(st, w, items) ==
   [i \in Idx(w.rows) |-> [m \in Idx(items) |-> Eval(items[m].e, st.frame, w.rows[i].v, CtxOf(st, w, i))]]
@@ -672,7 +683,8 @@ InlineStep(s, fns) ==
 
 ApplyStep(st, s0, dbs, schema) ==
   LET s == InlineStep(s0, st.fns) IN
-  IF st.status = "init" THEN (IF s.op = "from" THEN (IF EnvIdx(st, s.t) # {} THEN FromLet(st, s, dbs, schema) ELSE From(st, s, dbs, schema)) ELSE Err(st))
+  IF st.status = "init" /\ s.op = "fromlit" THEN FromLit(st, s, dbs)
+  ELSE IF st.status = "init" THEN (IF s.op = "from" THEN (IF EnvIdx(st, s.t) # {} THEN FromLet(st, s, dbs, schema) ELSE From(st, s, dbs, schema)) ELSE Err(st))
   ELSE IF st.status # "ok" THEN st
   ELSE CASE s.op = "select"    -> Select(st, s)
          [] s.op = "derive"    -> Derive(st, s)
